@@ -385,3 +385,89 @@ def fmt_t(t) -> str:
     if t[0] == "L":
         return f"{'/'.join(t[1])}.{t[2]}[{t[3]}]"
     return f"port {t[1]}[{t[2]}]"
+
+
+def compare_renamed(ref: Flat, obs: Flat, cap: int = 20000) -> Optional[List[str]]:
+    """Like `compare`, but leaf instances are identified by their unique tag instead of their path, and leaves that
+    share a tag (elements of one array / pair) are matched by searching a bijection that makes the partitions equal.
+    Returns [] if some bijection works, a list of differences otherwise, None if the search space exceeded `cap`."""
+    import itertools
+
+    def obs_key(v):
+        dom, name, params = v
+        for k in ("tag", "r", "c", "gain", "nf"):
+            if k in params:
+                pv = params[k]
+                if isinstance(pv, tuple) and pv[0] == "pref":
+                    pv = int(pv[1]) if pv[1].denominator == 1 else pv[1]
+                return (dom, name, k, pv)
+        return (dom, name, None, None)
+
+    def ref_key(v):
+        dom, name, params = expected_leaf(*v)
+        (k, pv), = params.items()
+        return (dom, name, k, pv)
+
+    gr: Dict[Any, list] = {}
+    go: Dict[Any, list] = {}
+    for p, v in ref.leaves.items():
+        gr.setdefault(ref_key(v), []).append(p)
+    for p, v in obs.leaves.items():
+        go.setdefault(obs_key(v), []).append(p)
+    diffs = []
+    for k in sorted(set(gr) | set(go), key=str):
+        a, b = len(gr.get(k, [])), len(go.get(k, []))
+        if a != b:
+            diffs.append(f"{a} leaf device(s) {k[1]}({k[2]}={k[3]}) in the design, {b} in the package "
+                         f"(package paths {['/'.join(x) for x in go.get(k, [])][:4]})")
+    if diffs:
+        return diffs[:6]
+    # top-level ports: a flattened bundle port may legitimately have received a fresh (underscore-suffixed) name
+    pmap = {}
+    rp = dict(ref.ports)
+    unmatched = [n for n, w in obs.ports if n not in rp]
+    for n, w in obs.ports:
+        if n in rp:
+            pmap[n] = n
+    for n in unmatched:
+        base = n.rstrip("_")
+        if base in rp and base not in pmap.values():
+            pmap[n] = base
+    if sorted((pmap.get(n, n), w) for n, w in obs.ports) != sorted(ref.ports):
+        return [f"top-level ports {sorted(obs.ports)}, expected {sorted(ref.ports)}"]
+    if any(k != v for k, v in pmap.items()):
+        obs_nets = frozenset(frozenset(("P", pmap.get(t[1], t[1]), t[2]) if t[0] == "P" else t for t in net) for net in obs.nets)
+    else:
+        obs_nets = obs.nets
+    keys = sorted(gr, key=str)
+    space = 1
+    for k in keys:
+        n = len(gr[k])
+        for i in range(2, n + 1):
+            space *= i
+    if space > cap:
+        return None
+    omap_nets = obs_nets
+    last = None
+    for perm in itertools.product(*[itertools.permutations(sorted(go[k])) for k in keys]):
+        mapping = {}
+        for k, pk in zip(keys, perm):
+            for a, b in zip(sorted(gr[k]), pk):
+                mapping[a] = b
+        renamed = frozenset(frozenset(("L", mapping[t[1]], t[2], t[3]) if t[0] == "L" else t for t in net) for net in ref.nets)
+        if renamed == omap_nets:
+            return []
+        last = renamed
+    # explain with the identity-order candidate
+    rmap = {t: n for n in last for t in n}
+    omap = {t: n for n in obs_nets for t in n}
+    for t in sorted(set(rmap) | set(omap), key=str):
+        if t not in omap or t not in rmap:
+            diffs.append(f"terminal {fmt_t(t)} present on one side only")
+        elif rmap[t] != omap[t]:
+            extra = sorted(map(fmt_t, omap[t] - rmap[t]))
+            lost = sorted(map(fmt_t, rmap[t] - omap[t]))
+            diffs.append(f"net of {fmt_t(t)}: shorted to {extra[:4]}" if extra else f"net of {fmt_t(t)}: split from {lost[:4]}")
+        if len(diffs) >= 5:
+            break
+    return diffs or ["partitions differ"]
